@@ -64,8 +64,39 @@ func (p *Path) nondetL(kind string, s Sort) *Term {
 	return p.nondet(label, s, kind)
 }
 
+func (p *Path) rngNext() uint64 {
+	p.rng += 0x9e3779b97f4a7c15
+	z := p.rng
+	z = (z ^ (z >> 30)) * 0xbf58476d1ce4e5b9
+	z = (z ^ (z >> 27)) * 0x94d049bb133111eb
+	return z ^ (z >> 31)
+}
+
+// seededBits mirrors vDrawBits of the native runtime.
+func (p *Path) seededBits(w int) uint64 {
+	r := p.rngNext()
+	if w > 8 && r&1 == 0 {
+		r = (r >> 1) % 67
+		if (r>>3)&1 == 1 && w >= 16 {
+			return (uint64(0) - (r % 17)) & mask(w)
+		}
+		return r
+	}
+	r >>= 1
+	return r & mask(w)
+}
+
 func (p *Path) pinnedValue(s Sort) *Term {
 	tt := p.w.tt
+	if p.seeded {
+		switch s.K {
+		case KBool:
+			return tt.BoolC(p.seededBits(1)&1 == 1)
+		case KFP:
+			return tt.FPC(s.W, float64(int64(p.seededBits(64)))/8)
+		}
+		return tt.BVC(s.W, p.seededBits(s.W))
+	}
 	if p.pinPos >= len(p.pinned) {
 		p.abort(abortUnsupported, "pinned replay: ran out of values")
 	}
@@ -98,18 +129,32 @@ func hTag(fr *frame, a []Value) Value {
 func hRange(fr *frame, a []Value) Value {
 	tt := fr.w.tt
 	lo, hi := a[0].(*Term), a[1].(*Term)
+	if fr.p.seeded {
+		return fr.p.seededRange(lo, hi)
+	}
 	v := fr.p.nondetL("i64", BV(64))
 	fr.p.addPC(tt.And(tt.SLE(lo, v), tt.SLE(v, hi)))
 	return v
+}
+
+func (p *Path) seededRange(lo, hi *Term) *Term {
+	l, h := int64(lo.C), int64(hi.C)
+	if h < l {
+		p.abort(abortInfeasible, "empty range")
+	}
+	return p.w.bv64(l + int64(p.rngNext()%uint64(h-l+1)))
 }
 
 // vLen(lo, hi int) int : symbolic integer with lo <= x <= hi, concretised (forks).
 func hLen(fr *frame, a []Value) Value {
 	tt := fr.w.tt
 	lo, hi := a[0].(*Term), a[1].(*Term)
+	if fr.p.seeded {
+		return fr.p.seededRange(lo, hi)
+	}
 	v := fr.p.nondetL("len", BV(64))
 	fr.p.addPC(tt.And(tt.SLE(lo, v), tt.SLE(v, hi)))
-	if !fr.p.feasible(tt.True) {
+	if fr.p.pinned == nil && fr.p.pos >= len(fr.p.prefix) && fr.w.solver.Check() == Unsat {
 		fr.p.abort(abortInfeasible, "vLen: empty range")
 	}
 	return tt.BVC(64, fr.p.concretize(v))
@@ -120,6 +165,9 @@ func hChoice(fr *frame, a []Value) Value {
 	tt := fr.w.tt
 	if n <= 1 {
 		return tt.BVC(64, 0)
+	}
+	if fr.p.seeded {
+		return fr.p.seededRange(tt.BVC(64, 0), tt.BVC(64, n-1))
 	}
 	v := fr.p.nondetL("choice", BV(64))
 	fr.p.addPC(tt.ULT(v, tt.BVC(64, n)))
